@@ -8,11 +8,24 @@ import Ops.BitCoders
 import Ops.MeshTools
 import Ops.Symbols
 import Ops.E2EProps
+import Ops.IO
+import Ops.SeqEnc
 /- Line-protocol driver of the executable model: one op per line in, one line out. -/
 open Draco
 
-def allOps : List (String × (List String → String)) :=
-  Ops.coreOps ++ Ops.codecOps ++ Ops.transformOps ++ Ops.quantOps ++ Ops.cornerTableOps ++ Ops.metadataOps ++ Ops.bitCoderOps ++ Ops.meshToolOps ++ Ops.symbolOps ++ Ops.e2ePropsOps
+def allOps : List (String × (List String → String)) := List.flatten [
+  Ops.coreOps,
+  Ops.codecOps,
+  Ops.transformOps,
+  Ops.quantOps,
+  Ops.cornerTableOps,
+  Ops.metadataOps,
+  Ops.bitCoderOps,
+  Ops.meshToolOps,
+  Ops.symbolOps,
+  Ops.ioOps,
+  Ops.seqEncOps,
+  Ops.e2ePropsOps]
 
 def dispatch (line : String) : String :=
   match (line.trimAscii.toString.splitOn " ").filter (· ≠ "") with
